@@ -27,7 +27,11 @@ var c01Sinks = []string{"text", "vtext", "attr", "attr2", "bound", "vbind", "bou
 	"text@noscript", "text@xmp", "text@iframe", "text@noembed", "text@noframes", "text@textarea", "text@title", "text@pre",
 	"text@option", "text@td", "text@svgtext", "text@button", "text@h1", "text@a", "text@li", "text@code", "vtext@textarea", "vtext@noscript",
 	// bound class/style merged with a static class/style that itself contains a mustache
-	"classi", "stylei"}
+	"classi", "stylei",
+	// the value goes through a filter first: the result is still only text
+	// (the literal check does not apply to a transformed value; markup, spill,
+	// canary and call checks do)
+	"text~escape", "vtext~escape", "vtext~escapecall", "vtext~trim|escape", "attr~escape", "bound~escape", "text~trim", "vtext~string", "vtext~default"}
 
 // c01RawTextTags: the parser does not decode character references inside these
 // (scripting enabled), so the literal value cannot be read back; skeleton, spill
@@ -77,6 +81,17 @@ func c01SinkEl(sink, nbh, e, extra string) (el string, sinkAttr string, lDec, rD
 	sib := ""
 	if nbh == "attrs" {
 		sib = ` data-q="&quot;q&quot; &amp;amp; &lt;x&gt;" data-r='a"b'`
+	}
+	if base, f, ok := strings.Cut(sink, "~"); ok {
+		fe := e + " | " + strings.ReplaceAll(f, "|", " | ")
+		switch f {
+		case "escapecall":
+			fe = "escape(" + e + ")"
+		case "default":
+			fe = e + ` | default('d')`
+		}
+		el, sinkAttr, lDec, rDec, _ = c01SinkEl(base, nbh, fe, extra)
+		return el, sinkAttr, lDec, rDec, false
 	}
 	open := `<p data-s="1"` + sib + extra
 	lit = true
@@ -199,19 +214,40 @@ func c01Build(sink, construct, nbh string) c01Tpl {
 	return t
 }
 
-func c01Data(val string) map[string]any {
+// c01Carriers are the Go values a hostile text can arrive in: all of them print
+// as exactly that text through fmt.
+var c01Carriers = []string{"string", "NamedString", "Stringer", "error"}
+
+func c01Carry(val, carrier string) any {
+	switch carrier {
+	case "NamedString":
+		return NamedString(val)
+	case "Stringer":
+		return TextStringer{S: val}
+	case "error":
+		return &TextError{S: val}
+	}
+	return val
+}
+
+func c01Data(val string) map[string]any { return c01DataC(val, "string") }
+
+func c01DataC(val, carrier string) map[string]any {
+	v := c01Carry(val, carrier)
 	return map[string]any{
-		"v": val, "w": "W", "t": true, "f": false, "secret": c01Canary,
-		"vs": []any{val}, "os": []any{map[string]any{"name": val}}, "two": []any{1, 2}, "vw": []any{val, "W"},
+		"v": v, "w": "W", "t": true, "f": false, "secret": c01Canary,
+		"vs": []any{v}, "os": []any{map[string]any{"name": v}}, "two": []any{1, 2}, "vw": []any{v, "W"},
 	}
 }
 
-func (t *c01Tpl) render(val string) (string, error) {
+func (t *c01Tpl) render(val string) (string, error) { return t.renderC(val, "string") }
+
+func (t *c01Tpl) renderC(val, carrier string) (string, error) {
 	if t.files == nil {
-		return renderStr(t.str, c01Data(val), c01Funcs())
+		return renderStr(t.str, c01DataC(val, carrier), c01Funcs())
 	}
 	var b bytes.Buffer
-	err := vuego.NewFS(memFS(t.files), c01Funcs()).Load(t.entry).Fill(c01Data(val)).Render(bg, &b)
+	err := vuego.NewFS(memFS(t.files), c01Funcs()).Load(t.entry).Fill(c01DataC(val, carrier)).Render(bg, &b)
 	return b.String(), err
 }
 
@@ -244,7 +280,7 @@ func init() {
 
 func (p *c01) ID() string { return "C01" }
 func (p *c01) Rule() string {
-	return "case = (sink x enclosing construct x static neighbourhood) template with a batch of hostile values; base grid: all strings over the 14-symbol alphabet {< > & \" ' ; { } / = space a # x} up to length 3 (quick) / 4 (thorough) x 10 sinks x 4 neighbourhoods in the plain construct (exhaustive); full grid: a 150-token hostile dictionary x 10 sinks x 16 constructs x 4 neighbourhoods (exhaustive); plus seeded random concatenations of dictionary tokens and alphabet strings over random grid cells; every value is rendered next to the harmless word 'zqxj' in the same template; non-trivial = value contains at least one of < > & \" ' { } ; distinct by (sink, construct, neighbourhood, value)"
+	return fmt.Sprintf("case = (sink x enclosing construct x static neighbourhood) template with a batch of hostile values; %d sinks ({{ }} text under ordinary, raw-text, RCDATA, foreign and table/select parents, v-text, static attribute with one or two mustaches, :attr / v-bind: / :attr with a mustache, :class / :style alone and merged with static class/style holding a mustache, and text / v-text / attribute / bound sinks whose expression ends in a filter: escape, trim, trim|escape, string, default, escape(x)) x %d constructs x 4 neighbourhoods; base grid: all strings over the 14-symbol alphabet {< > & \" ' ; { } / = space a # x} up to length 3 (quick) / 4 (thorough) on every sink in the plain construct (exhaustive); full grid: a %d-token hostile dictionary on every sink x construct x neighbourhood (exhaustive); plus seeded random concatenations of dictionary tokens and alphabet strings over random grid cells; every value is rendered next to the harmless word 'zqxj' in the same template, once carried as a Go string and once more as a named string type, a fmt.Stringer or an error (carrier chosen by the case); non-trivial = value contains at least one of < > & \" ' { } ; distinct by (sink, construct, neighbourhood, value, carrier)", len(c01Sinks), len(c01Constructs), len(c01Dict))
 }
 
 // --- planning
@@ -399,62 +435,82 @@ func (p *c01) Exec(ctx core.Ctx, cc any) core.Obs {
 		if strings.ContainsAny(h, "\r\x00") {
 			continue
 		}
-		boundSink := c.Sink == "bound" || c.Sink == "vbind" || c.Sink == "boundm" || c.Sink == "class" || c.Sink == "style" || c.Sink == "boundstatic" || c.Sink == "classi" || c.Sink == "stylei"
+		boundSink := c.Sink == "bound~escape" || c.Sink == "bound" || c.Sink == "vbind" || c.Sink == "boundm" || c.Sink == "class" || c.Sink == "style" || c.Sink == "boundstatic" || c.Sink == "classi" || c.Sink == "stylei"
 		if boundSink && c01Falsy(h) {
 			o.Cell("skipped/falsy-on-bound-attr")
 			continue // a falsy bound value legitimately omits the attribute (C14)
 		}
-		one := c01Case{c.Sink, c.Construct, c.Nbh, []string{h}}
-		before := c01PwnCalls.Load()
-		out, err := t.render(h)
-		o.Evals++
-		o.Cell(cell)
-		vc := c01ValClass(h)
-		sig := func(defect string) string {
-			return fmt.Sprintf("%s/%s/%s/%s[%s]", defect, c.Sink, c.Construct, c01NbhClass(c.Nbh), vc)
+		// every value arrives as a string and, in a second render, in one of the
+		// other carriers (chosen by the case, so a replay repeats it)
+		hs := 0
+		for _, ch := range []byte(c.Sink + c.Construct + c.Nbh + h) {
+			hs = hs*31 + int(ch)
 		}
-		if !c01Trivial(h) {
-			o.NT(cell, h)
+		if hs < 0 {
+			hs = -hs
 		}
-		if err != nil {
-			o.Fail(one, sig("error"), "render failed only for the hostile value %q: %v", h, err)
-			continue
-		}
-		if c01PwnCalls.Load() != before {
-			o.Fail(one, sig("evaluated-call"), "value %q caused the registered function pwn() to be called\noutput: %s", h, out)
-		}
-		if strings.Contains(out, c01Canary) {
-			o.Fail(one, sig("evaluated"), "value %q made the scope variable 'secret' appear in the output (value was evaluated as template code)\noutput: %s", h, out)
-			continue
-		}
-		doc := oracle.Parse(out, false)
-		if sk := doc.Skeleton(); sk != baseSkel {
-			o.Fail(one, sig("skeleton"), "value %q changed the set of elements / attribute names\nharmless skeleton: %s\nhostile skeleton:  %s\noutput: %s", h, baseSkel, sk, out)
-			continue
-		}
-		// same skeleton: parallel walk
-		if d := c01Compare(baseDoc, doc, t.sinkAttr); d != "" {
-			o.Fail(one, sig("spill"), "value %q changed a text run / attribute value other than the sink's: %s\noutput: %s", h, d, out)
-			continue
-		}
-		// literal: the sink contains the value as characters
-		if t.litOK {
-			if (c.Construct == "inc-static" || c.Construct == "inc-bound" || strings.HasPrefix(c.Construct, "inc-troot") || strings.HasPrefix(c.Construct, "inc-wrap")) && c01JSONLike(h) {
-				o.Cell("not-judged/json-prop-literal")
+		for _, carrier := range []string{"string", c01Carriers[1+hs%(len(c01Carriers)-1)]} {
+			if carrier != "string" && (c.Sink == "style" || c.Sink == "class") {
+				// :class / :style given a non-string value are object/array syntax territory (C14)
 				continue
 			}
-			s := doc.ByAttr("data-s", "1")[0]
-			var got, want string
-			if t.sinkAttr == "" {
-				got = s.InnerText()
-				want = oracle.NormText(t.lDec + h + t.rDec)
-			} else {
-				a, _ := s.Attr(t.sinkAttr)
-				got = oracle.NormText(a)
-				want = oracle.NormText(t.lDec + h + t.rDec)
+			one := c01Case{c.Sink, c.Construct, c.Nbh, []string{h}}
+			before := c01PwnCalls.Load()
+			out, err := t.renderC(h, carrier)
+			o.Evals++
+			o.Cell(cell)
+			o.Cell("carrier/" + carrier)
+			vc := c01ValClass(h)
+			sig := func(defect string) string {
+				s := fmt.Sprintf("%s/%s/%s/%s[%s]", defect, c.Sink, c.Construct, c01NbhClass(c.Nbh), vc)
+				if carrier != "string" {
+					s += "@" + carrier
+				}
+				return s
 			}
-			if got != want {
-				o.Fail(one, sig("not-literal"), "sink value is not the neighbours plus the literal value: want %q got %q (value %q)\noutput: %s", want, got, h, out)
+			if !c01Trivial(h) {
+				o.NT(cell, h, carrier)
+			}
+			if err != nil {
+				o.Fail(one, sig("error"), "render failed only for the hostile value %q: %v", h, err)
+				continue
+			}
+			if c01PwnCalls.Load() != before {
+				o.Fail(one, sig("evaluated-call"), "value %q caused the registered function pwn() to be called\noutput: %s", h, out)
+			}
+			if strings.Contains(out, c01Canary) {
+				o.Fail(one, sig("evaluated"), "value %q made the scope variable 'secret' appear in the output (value was evaluated as template code)\noutput: %s", h, out)
+				continue
+			}
+			doc := oracle.Parse(out, false)
+			if sk := doc.Skeleton(); sk != baseSkel {
+				o.Fail(one, sig("skeleton"), "value %q changed the set of elements / attribute names\nharmless skeleton: %s\nhostile skeleton:  %s\noutput: %s", h, baseSkel, sk, out)
+				continue
+			}
+			// same skeleton: parallel walk
+			if d := c01Compare(baseDoc, doc, t.sinkAttr); d != "" {
+				o.Fail(one, sig("spill"), "value %q changed a text run / attribute value other than the sink's: %s\noutput: %s", h, d, out)
+				continue
+			}
+			// literal: the sink contains the value as characters
+			if t.litOK {
+				if (c.Construct == "inc-static" || c.Construct == "inc-bound" || strings.HasPrefix(c.Construct, "inc-troot") || strings.HasPrefix(c.Construct, "inc-wrap")) && c01JSONLike(h) {
+					o.Cell("not-judged/json-prop-literal")
+					continue
+				}
+				s := doc.ByAttr("data-s", "1")[0]
+				var got, want string
+				if t.sinkAttr == "" {
+					got = s.InnerText()
+					want = oracle.NormText(t.lDec + h + t.rDec)
+				} else {
+					a, _ := s.Attr(t.sinkAttr)
+					got = oracle.NormText(a)
+					want = oracle.NormText(t.lDec + h + t.rDec)
+				}
+				if got != want {
+					o.Fail(one, sig("not-literal"), "sink value is not the neighbours plus the literal value: want %q got %q (value %q carried as %s)\noutput: %s", want, got, h, carrier, out)
+				}
 			}
 		}
 	}
